@@ -2,38 +2,183 @@ import JPV.Props.Common
 import JPV.Proofs.Compare
 import JPV.Proofs.Slice
 import JPV.Proofs.Visit
+import JPV.Proofs.EvalAux
+/-
+The evaluator agrees with the RFC 9535 semantics (C01, C02, C10).
+General lemmas (streams, selectors on one node, well-formedness and depth of
+children/descendants, segments, representation of typed results) are in
+`Proofs/EvalAux.lean`; this file has the mutual induction over the AST and the
+exported theorems.
+-/
 namespace JPV.Proofs
 open JPV JPV.Props
 
-theorem eval_correct : ∀ (env : Impl.Env) (reg : Spec.Registry) (q : Query) (v : Json),
-    EnvConforms env reg → Spec.wtQuery (sigsOf reg) q = true → v.WF →
-    (v.depth : Int) ≤ env.maxDepth → 1 ≤ env.maxDepth →
-    Impl.find env q v = .ok (Spec.select reg q v) := by sorry
+/-! ### Built-in functions -/
 
-theorem builtin_conforms : EnvConforms builtinEnv builtinReg := by sorry
+theorem args_single {args : List Spec.Arg} {t : Ty} (h : args.map argTy = [t]) :
+    ∃ a, args = [a] ∧ argTy a = t := by
+  match args, h with
+  | [a], h => exact ⟨a, rfl, by simpa using h⟩
+
+theorem arg_value {a : Spec.Arg} (h : argTy a = .value) : ∃ v, a = .value v := by
+  cases a <;> simp_all [argTy]
+theorem arg_nodes {a : Spec.Arg} (h : argTy a = .nodes) : ∃ ns, a = .nodes ns := by
+  cases a <;> simp_all [argTy]
+theorem arg_logical {a : Spec.Arg} (h : argTy a = .logical) : ∃ b, a = .logical b := by
+  cases a <;> simp_all [argTy]
+
+theorem length_conforms : Conforms Impl.lengthFunc Spec.lengthFn where
+  argTypes := rfl
+  ret := rfl
+  body := by
+    intro args h
+    obtain ⟨a, rfl, ha⟩ := args_single h
+    obtain ⟨v, rfl⟩ := arg_value ha
+    cases v with
+    | none => rfl
+    | some j => cases j <;> rfl
+  retTy := by
+    intro args h
+    obtain ⟨a, rfl, ha⟩ := args_single h
+    obtain ⟨v, rfl⟩ := arg_value ha
+    cases v with
+    | none => rfl
+    | some j => cases j <;> rfl
+  retWF := by
+    intro args h _
+    obtain ⟨a, rfl, ha⟩ := args_single h
+    obtain ⟨v, rfl⟩ := arg_value ha
+    cases v with
+    | none => trivial
+    | some j => cases j <;> simp [Spec.lengthFn, ArgWF, Spec.natVal, Json.WF]
+
+theorem count_conforms : Conforms Impl.countFunc Spec.countFn where
+  argTypes := rfl
+  ret := rfl
+  body := by
+    intro args h
+    obtain ⟨a, rfl, ha⟩ := args_single h
+    obtain ⟨ns, rfl⟩ := arg_nodes ha
+    rfl
+  retTy := by
+    intro args h
+    obtain ⟨a, rfl, ha⟩ := args_single h
+    obtain ⟨ns, rfl⟩ := arg_nodes ha
+    rfl
+  retWF := by
+    intro args h _
+    obtain ⟨a, rfl, ha⟩ := args_single h
+    obtain ⟨ns, rfl⟩ := arg_nodes ha
+    simp [Spec.countFn, ArgWF, Spec.natVal, Json.WF]
+
+theorem value_conforms : Conforms Impl.valueFunc Spec.valueFn where
+  argTypes := rfl
+  ret := rfl
+  body := by
+    intro args h
+    obtain ⟨a, rfl, ha⟩ := args_single h
+    obtain ⟨ns, rfl⟩ := arg_nodes ha
+    match ns with
+    | [] => rfl
+    | [n] => rfl
+    | _ :: _ :: _ => rfl
+  retTy := by
+    intro args h
+    obtain ⟨a, rfl, ha⟩ := args_single h
+    obtain ⟨ns, rfl⟩ := arg_nodes ha
+    match ns with
+    | [] => rfl
+    | [n] => rfl
+    | _ :: _ :: _ => rfl
+  retWF := by
+    intro args h hwf
+    obtain ⟨a, rfl, ha⟩ := args_single h
+    obtain ⟨ns, rfl⟩ := arg_nodes ha
+    match ns, hwf with
+    | [], _ => trivial
+    | [n], hwf =>
+      have := hwf _ (List.mem_singleton.2 rfl)
+      exact this n (List.mem_singleton.2 rfl)
+    | _ :: _ :: _, _ => trivial
+
+theorem builtin_conforms : EnvConforms builtinEnv builtinReg := by
+  intro name
+  by_cases h1 : name = "length".toList
+  · subst h1
+    simp only [builtinEnv, builtinReg, Impl.Env.func, List.find?, decide_true, Option.map, if_true]
+    exact length_conforms
+  · by_cases h2 : name = "count".toList
+    · subst h2
+      have : builtinEnv.func "count".toList = some Impl.countFunc := by
+        simp [builtinEnv, Impl.Env.func, List.find?]
+      have h' : builtinReg "count".toList = some Spec.countFn := by
+        simp [builtinReg]
+      rw [this, h']
+      exact count_conforms
+    · by_cases h3 : name = "value".toList
+      · subst h3
+        have : builtinEnv.func "value".toList = some Impl.valueFunc := by
+          simp [builtinEnv, Impl.Env.func, List.find?]
+        have h' : builtinReg "value".toList = some Spec.valueFn := by
+          simp [builtinReg]
+        rw [this, h']
+        exact value_conforms
+      · have e1 : "length".toList = ['l', 'e', 'n', 'g', 't', 'h'] := by decide
+        have e2 : "count".toList = ['c', 'o', 'u', 'n', 't'] := by decide
+        have e3 : "value".toList = ['v', 'a', 'l', 'u', 'e'] := by decide
+        rw [e1] at h1; rw [e2] at h2; rw [e3] at h3
+        have : builtinEnv.func name = none := by
+          simp [builtinEnv, Impl.Env.func, List.find?, Ne.symm h1, Ne.symm h2, Ne.symm h3]
+        have h' : builtinReg name = none := by
+          simp [builtinReg, h1, h2, h3]
+        rw [this, h']
+        trivial
+
+
+/-! ### Filter-free (structural) queries -/
 
 theorem filter_scalar (env : Impl.Env) (root : Json) (e : Expr) (n : Node) (h : n.val.isContainer = false) :
-    Impl.evalSel env root (.filter e) n = ([], none) := by sorry
+    Impl.evalSel env root (.filter e) n = ([], none) := impl_sel_scalar env root _ n h
+
+theorem find_of_segs {env : Impl.Env} {q : Query} {v : Json} {L : List Node}
+    (h : Impl.evalSegs env v q ([⟨[], v⟩], none) = (L, none)) : Impl.find env q v = .ok L := by
+  simp only [Impl.find, Impl.finditer, h, Impl.Stream.toList]
 
 theorem structural_correct : ∀ (env : Impl.Env) (reg : Spec.Registry) (q : Query) (v : Json),
     Spec.filterFree q = true → v.WF → (v.depth : Int) ≤ env.maxDepth → 1 ≤ env.maxDepth →
-    Impl.find env q v = .ok (Spec.select reg q v) := by sorry
+    Impl.find env q v = .ok (Spec.select reg q v) := by
+  intro env reg q v hf hwf hd h1
+  apply find_of_segs
+  apply segs_filterFree env reg v env.maxDepth q hf (.inr ⟨Int.le_refl _, h1⟩)
+  intro n hn
+  simp only [List.mem_singleton] at hn
+  subst hn
+  exact ⟨hwf, hd⟩
 
 theorem structural_correct_child (env : Impl.Env) (reg : Spec.Registry) (q : Query) (v : Json)
     (hf : Spec.filterFree q = true)
     (hd : q.all (fun s => match s with | .child _ => true | .desc _ => false) = true)
-    (hwf : v.WF) : Impl.find env q v = .ok (Spec.select reg q v) := by sorry
+    (hwf : v.WF) : Impl.find env q v = .ok (Spec.select reg q v) := by
+  apply find_of_segs
+  apply segs_filterFree env reg v v.depth q hf (.inl ?_)
+  · intro n hn
+    simp only [List.mem_singleton] at hn
+    subst hn
+    exact ⟨hwf, Int.le_refl _⟩
+  · intro seg hseg ss he
+    subst he
+    have := List.all_eq_true.1 hd _ hseg
+    simp at this
 
 theorem child_concat (reg : Spec.Registry) (root : Json) (sels : List Selector) (ns : List Node) :
     Spec.selectSeg reg root (.child sels) ns =
-      ns.flatMap (fun n => sels.flatMap (fun s => Spec.selectSel reg root s n)) := by sorry
-
-theorem args_correct : ∀ (env : Impl.Env) (reg : Spec.Registry) (root cur : Json) (tys : List Ty) (args : List Expr),
-    EnvConforms env reg → Spec.wtArgs (sigsOf reg) tys args = true →
-    root.WF → cur.WF → (root.depth : Int) ≤ env.maxDepth → (cur.depth : Int) ≤ env.maxDepth →
-    1 ≤ env.maxDepth →
-    (Impl.evalArgs env root cur args).bind (Impl.unpack tys) =
-      .ok ((Spec.argsOf reg root cur tys args).map argObj) := by sorry
+      ns.flatMap (fun n => sels.flatMap (fun s => Spec.selectSel reg root s n)) := by
+  simp only [Spec.selectSeg]
+  congr 1
+  funext n
+  induction sels with
+  | nil => rfl
+  | cons s ss ih => simp only [Spec.selectSels, List.flatMap_cons, ih]
 
 theorem length_spec (v : Spec.Val) :
     Impl.lengthBody [valObj v] = .ok (argObj (Spec.lengthFn.sem [.value v])) ∧
@@ -41,12 +186,282 @@ theorem length_spec (v : Spec.Val) :
       | some (.str s) => Spec.natVal s.length
       | some (.arr xs) => Spec.natVal xs.length
       | some (.obj kvs) => Spec.natVal kvs.length
-      | _ => none) := by sorry
+      | _ => none) := by
+  cases v with
+  | none => exact ⟨rfl, rfl⟩
+  | some j => cases j <;> exact ⟨rfl, rfl⟩
 
 theorem count_spec (ns : List Node) :
-    Impl.countBody [.nodes ns] = .ok (valObj (Spec.natVal ns.length)) := by sorry
+    Impl.countBody [.nodes ns] = .ok (valObj (Spec.natVal ns.length)) := rfl
 
 theorem value_spec (ns : List Node) :
-    Impl.valueBody [.nodes ns] = .ok (valObj (match ns with | [n] => some n.val | _ => none)) := by sorry
+    Impl.valueBody [.nodes ns] = .ok (valObj (match ns with | [n] => some n.val | _ => none)) := by
+  match ns with
+  | [] => rfl
+  | [n] => rfl
+  | _ :: _ :: _ => rfl
+
+
+/-! ### The typed evaluation lemmas: mutual induction over the AST -/
+
+structure Ctx (env : Impl.Env) (reg : Spec.Registry) (root : Json) : Prop where
+  hc : EnvConforms env reg
+  hroot : GoodJ env.maxDepth root
+  h1 : 1 ≤ env.maxDepth
+
+theorem good_single {mx : Int} {j : Json} (h : GoodJ mx j) : ∀ n ∈ [(⟨[], j⟩ : Node)], Good mx n := by
+  intro n hn
+  simp only [List.mem_singleton] at hn
+  subst hn
+  exact h
+
+theorem rel_eval {env : Impl.Env} {root j : Json} {q : List Segment} {L : List Node}
+    (h : Impl.evalSegs env root q ([⟨[], j⟩], none) = (L, none)) :
+    (do let ns ← (Impl.evalSegs env root q ([⟨[], j⟩], none)).toList
+        pure (Impl.Obj.nodes ns) : Except Impl.ErrKind Impl.Obj) = .ok (.nodes L) := by
+  rw [h]; rfl
+
+mutual
+theorem test_ok (env : Impl.Env) (reg : Spec.Registry) (root : Json) (C : Ctx env reg root) :
+    ∀ (e : Expr) (cur : Json), GoodJ env.maxDepth cur → Spec.wtTest (sigsOf reg) e = true →
+      ∃ o, Impl.evalExpr env root cur e = .ok o ∧ TestRep o (Spec.testOf reg root cur e)
+  | .lit v, cur, hcur, hwt => by simp [Spec.wtTest] at hwt
+  | .not e, cur, hcur, hwt => by
+      simp only [Spec.wtTest] at hwt
+      obtain ⟨o, ho, hr⟩ := test_ok env reg root C e cur hcur hwt
+      refine ⟨.val (.bool (!Impl.truthy o)), ?_, ?_⟩
+      · simp only [Impl.evalExpr, ho]; rfl
+      · left; simp only [Spec.testOf, hr.truthy]
+  | .logical op l r, cur, hcur, hwt => by
+      simp only [Spec.wtTest, Bool.and_eq_true] at hwt
+      obtain ⟨a, ha, hra⟩ := test_ok env reg root C l cur hcur hwt.1
+      obtain ⟨b, hb, hrb⟩ := test_ok env reg root C r cur hcur hwt.2
+      refine ⟨.val (.bool (match op with
+        | .and => Impl.truthy a && Impl.truthy b
+        | .or => Impl.truthy a || Impl.truthy b)), ?_, ?_⟩
+      · simp only [Impl.evalExpr, ha, hb]; rfl
+      · left
+        cases op <;> simp only [Spec.testOf, hra.truthy, hrb.truthy]
+  | .cmp op l r, cur, hcur, hwt => by
+      simp only [Spec.wtTest, Bool.and_eq_true] at hwt
+      obtain ⟨a, ha, hra⟩ := val_ok env reg root C l cur hcur hwt.1
+      obtain ⟨b, hb, hrb⟩ := val_ok env reg root C r cur hcur hwt.2
+      refine ⟨.val (.bool (Impl.compare (Impl.unwrap1 a) op (Impl.unwrap1 b))), ?_, ?_⟩
+      · simp only [Impl.evalExpr, ha, hb]; rfl
+      · left
+        obtain ⟨ca, wa, fa⟩ := hra.comparand
+        obtain ⟨cb, wb, fb⟩ := hrb.comparand
+        simp only [Spec.testOf, compare_correct _ _ op ca cb wa wb, fa, fb]
+  | .rel q, cur, hcur, hwt => by
+      simp only [Spec.wtTest] at hwt
+      have h := segs_ok env reg root C q hwt [⟨[], cur⟩] (good_single hcur)
+      refine ⟨.nodes (Spec.selectFrom reg root q [⟨[], cur⟩]), ?_, ?_⟩
+      · simp only [Impl.evalExpr]; exact rel_eval h
+      · right; exact ⟨_, rfl, by simp only [Spec.testOf]⟩
+  | .root q, cur, hcur, hwt => by
+      simp only [Spec.wtTest] at hwt
+      have h := segs_ok env reg root C q hwt [⟨[], root⟩] (good_single C.hroot)
+      refine ⟨.nodes (Spec.selectFrom reg root q [⟨[], root⟩]), ?_, ?_⟩
+      · simp only [Impl.evalExpr]; exact rel_eval h
+      · right; exact ⟨_, rfl, by simp only [Spec.testOf]⟩
+  | .call f args, cur, hcur, hwt => by
+      simp only [Spec.wtTest] at hwt
+      cases hr : reg f with
+      | none => rw [sigsOf_none hr] at hwt; simp at hwt
+      | some fn =>
+        rw [sigsOf_some hr] at hwt
+        simp only [Bool.and_eq_true, Bool.or_eq_true, beq_iff_eq] at hwt
+        obtain ⟨os, h1, h2, h3, h4⟩ := args_ok env reg root C args fn.argTypes cur hcur hwt.2
+        obtain ⟨he, hty, hwf⟩ := call_ok C.hc hr ⟨os, h1, h2⟩ h3 h4
+        refine ⟨_, he, ?_⟩
+        simp only [Spec.testOf, hr]
+        exact testRep_of_ty hty hwt.1
+theorem val_ok (env : Impl.Env) (reg : Spec.Registry) (root : Json) (C : Ctx env reg root) :
+    ∀ (e : Expr) (cur : Json), GoodJ env.maxDepth cur → Spec.wtComparable (sigsOf reg) e = true →
+      ∃ o, Impl.evalExpr env root cur e = .ok o ∧ ValRep o (Spec.valueOf reg root cur e)
+  | .lit v, cur, hcur, hwt => by
+      simp only [Spec.wtComparable] at hwt
+      exact ⟨.val v, by simp only [Impl.evalExpr], by simp only [Spec.valueOf]; exact .val v (scalar_wf hwt)⟩
+  | .not e, cur, hcur, hwt => by simp [Spec.wtComparable] at hwt
+  | .logical op l r, cur, hcur, hwt => by simp [Spec.wtComparable] at hwt
+  | .cmp op l r, cur, hcur, hwt => by simp [Spec.wtComparable] at hwt
+  | .rel q, cur, hcur, hwt => by
+      simp only [Spec.wtComparable, Bool.and_eq_true] at hwt
+      have hg := good_single hcur
+      have h := segs_ok env reg root C q hwt.2 [⟨[], cur⟩] hg
+      refine ⟨.nodes (Spec.selectFrom reg root q [⟨[], cur⟩]), ?_, ?_⟩
+      · simp only [Impl.evalExpr]; exact rel_eval h
+      · simp only [Spec.valueOf]
+        exact valRep_of_nodes _ (singular_length q hwt.1 _ hg (by simp))
+          (fun n hn => (selectFrom_good q _ hg n hn).1)
+  | .root q, cur, hcur, hwt => by
+      simp only [Spec.wtComparable, Bool.and_eq_true] at hwt
+      have hg := good_single C.hroot
+      have h := segs_ok env reg root C q hwt.2 [⟨[], root⟩] hg
+      refine ⟨.nodes (Spec.selectFrom reg root q [⟨[], root⟩]), ?_, ?_⟩
+      · simp only [Impl.evalExpr]; exact rel_eval h
+      · simp only [Spec.valueOf]
+        exact valRep_of_nodes _ (singular_length q hwt.1 _ hg (by simp))
+          (fun n hn => (selectFrom_good q _ hg n hn).1)
+  | .call f args, cur, hcur, hwt => by
+      simp only [Spec.wtComparable] at hwt
+      cases hr : reg f with
+      | none => rw [sigsOf_none hr] at hwt; simp at hwt
+      | some fn =>
+        rw [sigsOf_some hr] at hwt
+        simp only [Bool.and_eq_true, beq_iff_eq] at hwt
+        obtain ⟨os, h1, h2, h3, h4⟩ := args_ok env reg root C args fn.argTypes cur hcur hwt.2
+        obtain ⟨he, hty, hwf⟩ := call_ok C.hc hr ⟨os, h1, h2⟩ h3 h4
+        refine ⟨_, he, ?_⟩
+        simp only [Spec.valueOf, hr]
+        exact valRep_of_ty (hty.trans hwt.1) hwf
+theorem nodes_ok (env : Impl.Env) (reg : Spec.Registry) (root : Json) (C : Ctx env reg root) :
+    ∀ (e : Expr) (cur : Json), GoodJ env.maxDepth cur → Spec.wtNodes (sigsOf reg) e = true →
+      Impl.evalExpr env root cur e = .ok (.nodes (Spec.nodesOf reg root cur e)) ∧
+        ∀ n ∈ Spec.nodesOf reg root cur e, n.val.WF
+  | .lit v, cur, hcur, hwt => by simp [Spec.wtNodes] at hwt
+  | .not e, cur, hcur, hwt => by simp [Spec.wtNodes] at hwt
+  | .logical op l r, cur, hcur, hwt => by simp [Spec.wtNodes] at hwt
+  | .cmp op l r, cur, hcur, hwt => by simp [Spec.wtNodes] at hwt
+  | .rel q, cur, hcur, hwt => by
+      simp only [Spec.wtNodes] at hwt
+      have hg := good_single hcur
+      have h := segs_ok env reg root C q hwt [⟨[], cur⟩] hg
+      refine ⟨?_, ?_⟩
+      · simp only [Impl.evalExpr, Spec.nodesOf]; exact rel_eval h
+      · simp only [Spec.nodesOf]
+        exact fun n hn => (selectFrom_good q _ hg n hn).1
+  | .root q, cur, hcur, hwt => by
+      simp only [Spec.wtNodes] at hwt
+      have hg := good_single C.hroot
+      have h := segs_ok env reg root C q hwt [⟨[], root⟩] hg
+      refine ⟨?_, ?_⟩
+      · simp only [Impl.evalExpr, Spec.nodesOf]; exact rel_eval h
+      · simp only [Spec.nodesOf]
+        exact fun n hn => (selectFrom_good q _ hg n hn).1
+  | .call f args, cur, hcur, hwt => by
+      simp only [Spec.wtNodes] at hwt
+      cases hr : reg f with
+      | none => rw [sigsOf_none hr] at hwt; simp at hwt
+      | some fn =>
+        rw [sigsOf_some hr] at hwt
+        simp only [Bool.and_eq_true, beq_iff_eq] at hwt
+        obtain ⟨os, h1, h2, h3, h4⟩ := args_ok env reg root C args fn.argTypes cur hcur hwt.2
+        obtain ⟨he, hty, hwf⟩ := call_ok C.hc hr ⟨os, h1, h2⟩ h3 h4
+        simp only [Spec.nodesOf, hr]
+        exact ⟨he.trans (by rw [nodes_of_ty (hty.trans hwt.1)]), nodesWF_of_ty hwf⟩
+theorem args_ok (env : Impl.Env) (reg : Spec.Registry) (root : Json) (C : Ctx env reg root) :
+    ∀ (args : List Expr) (tys : List Ty) (cur : Json), GoodJ env.maxDepth cur →
+      Spec.wtArgs (sigsOf reg) tys args = true →
+      ∃ os, Impl.evalArgs env root cur args = .ok os ∧
+        Impl.unpack tys os = .ok ((Spec.argsOf reg root cur tys args).map argObj) ∧
+        (Spec.argsOf reg root cur tys args).map argTy = tys ∧
+        ∀ a ∈ Spec.argsOf reg root cur tys args, ArgWF a
+  | [], [], cur, hcur, hwt => by
+      exact ⟨[], by simp only [Impl.evalArgs], by simp [Impl.unpack, Spec.argsOf], by simp [Spec.argsOf],
+        by simp [Spec.argsOf]⟩
+  | [], t :: ts, cur, hcur, hwt => by simp [Spec.wtArgs] at hwt
+  | e :: es, [], cur, hcur, hwt => by simp [Spec.wtArgs] at hwt
+  | e :: es, t :: ts, cur, hcur, hwt => by
+      simp only [Spec.wtArgs, Bool.and_eq_true] at hwt
+      obtain ⟨os, h1, h2, h3, h4⟩ := args_ok env reg root C es ts cur hcur hwt.2
+      cases t with
+      | value =>
+        obtain ⟨o, ho, hr⟩ := val_ok env reg root C e cur hcur hwt.1
+        refine ⟨o :: os, ?_, ?_, ?_, ?_⟩
+        · simp only [Impl.evalArgs, ho, h1]; rfl
+        · simp only [Impl.unpack, h2, Spec.argsOf, List.map_cons, hr.unpack, argObj]; rfl
+        · simp only [Spec.argsOf, List.map_cons, h3, argTy]
+        · simp only [Spec.argsOf, List.mem_cons]
+          rintro a (rfl | ha)
+          · exact hr.argWF
+          · exact h4 a ha
+      | logical =>
+        obtain ⟨o, ho, hr⟩ := test_ok env reg root C e cur hcur hwt.1
+        refine ⟨o :: os, ?_, ?_, ?_, ?_⟩
+        · simp only [Impl.evalArgs, ho, h1]; rfl
+        · simp only [Impl.unpack, h2, Spec.argsOf, List.map_cons, hr.unpack, argObj]; rfl
+        · simp only [Spec.argsOf, List.map_cons, h3, argTy]
+        · simp only [Spec.argsOf, List.mem_cons]
+          rintro a (rfl | ha)
+          · trivial
+          · exact h4 a ha
+      | nodes =>
+        obtain ⟨ho, hr⟩ := nodes_ok env reg root C e cur hcur hwt.1
+        refine ⟨.nodes (Spec.nodesOf reg root cur e) :: os, ?_, ?_, ?_, ?_⟩
+        · simp only [Impl.evalArgs, ho, h1]; rfl
+        · simp only [Impl.unpack, h2, Spec.argsOf, List.map_cons, argObj, Impl.unpack1]; rfl
+        · simp only [Spec.argsOf, List.map_cons, h3, argTy]
+        · simp only [Spec.argsOf, List.mem_cons]
+          rintro a (rfl | ha)
+          · exact hr
+          · exact h4 a ha
+theorem sel_ok (env : Impl.Env) (reg : Spec.Registry) (root : Json) (C : Ctx env reg root) :
+    ∀ (s : Selector) (n : Node), Good env.maxDepth n → Spec.wtSel (sigsOf reg) s = true →
+      Impl.evalSel env root s n = (Spec.selectSel reg root s n, none)
+  | .name s, n, hn, _ => sel_nofilter env reg root _ n (by intro e h; cases h) hn.1
+  | .index i, n, hn, _ => sel_nofilter env reg root _ n (by intro e h; cases h) hn.1
+  | .slice a b c, n, hn, _ => sel_nofilter env reg root _ n (by intro e h; cases h) hn.1
+  | .wild, n, hn, _ => sel_nofilter env reg root _ n (by intro e h; cases h) hn.1
+  | .filter e, n, hn, hwt => by
+      simp only [Spec.wtSel] at hwt
+      simp only [Impl.evalSel, Spec.selectSel, children_eq]
+      apply filterChildren_eq
+      intro c hc
+      have hcg : GoodJ env.maxDepth c.val := good_kid (j := n.val) hn (mem_children hc)
+      obtain ⟨o, ho, hr⟩ := test_ok env reg root C e c.val hcg hwt
+      rw [ho]
+      show Except.ok (Impl.truthy o) = _
+      rw [hr.truthy]
+theorem sels_ok (env : Impl.Env) (reg : Spec.Registry) (root : Json) (C : Ctx env reg root) :
+    ∀ (ss : List Selector), Spec.wtSels (sigsOf reg) ss = true →
+      SelsAgree env reg root env.maxDepth ss
+  | [], _ => fun n _ => rfl
+  | s :: ss, hwt => by
+      simp only [Spec.wtSels, Bool.and_eq_true] at hwt
+      intro n hn
+      simp only [Impl.evalSels, Spec.selectSels, sel_ok env reg root C s n hn hwt.1,
+        sels_ok env reg root C ss hwt.2 n hn, append_none]
+theorem seg_ok (env : Impl.Env) (reg : Spec.Registry) (root : Json) (C : Ctx env reg root) :
+    ∀ (seg : Segment), Spec.wtSeg (sigsOf reg) seg = true →
+      ∀ ns : List Node, (∀ n ∈ ns, Good env.maxDepth n) →
+      Impl.evalSeg env root seg (ns, none) = (Spec.selectSeg reg root seg ns, none)
+  | .child ss, hwt => by
+      simp only [Spec.wtSeg] at hwt
+      exact seg_child_eq (sels_ok env reg root C ss hwt)
+  | .desc ss, hwt => by
+      simp only [Spec.wtSeg] at hwt
+      exact seg_desc_eq (sels_ok env reg root C ss hwt) (Int.le_refl _) C.h1
+theorem segs_ok (env : Impl.Env) (reg : Spec.Registry) (root : Json) (C : Ctx env reg root) :
+    ∀ (q : List Segment), Spec.wtQuery (sigsOf reg) q = true →
+      ∀ ns : List Node, (∀ n ∈ ns, Good env.maxDepth n) →
+      Impl.evalSegs env root q (ns, none) = (Spec.selectFrom reg root q ns, none)
+  | [], _ => fun ns _ => rfl
+  | seg :: q, hwt => by
+      simp only [Spec.wtQuery, Bool.and_eq_true] at hwt
+      intro ns hns
+      simp only [Impl.evalSegs, Spec.selectFrom, seg_ok env reg root C seg hwt.1 ns hns]
+      exact segs_ok env reg root C q hwt.2 _ (selectSeg_good seg ns hns)
+end
+
+
+theorem eval_correct : ∀ (env : Impl.Env) (reg : Spec.Registry) (q : Query) (v : Json),
+    EnvConforms env reg → Spec.wtQuery (sigsOf reg) q = true → v.WF →
+    (v.depth : Int) ≤ env.maxDepth → 1 ≤ env.maxDepth →
+    Impl.find env q v = .ok (Spec.select reg q v) := by
+  intro env reg q v hc hwt hwf hd h1
+  apply find_of_segs
+  exact segs_ok env reg v ⟨hc, ⟨hwf, hd⟩, h1⟩ q hwt _ (good_single ⟨hwf, hd⟩)
+
+theorem args_correct : ∀ (env : Impl.Env) (reg : Spec.Registry) (root cur : Json) (tys : List Ty) (args : List Expr),
+    EnvConforms env reg → Spec.wtArgs (sigsOf reg) tys args = true →
+    root.WF → cur.WF → (root.depth : Int) ≤ env.maxDepth → (cur.depth : Int) ≤ env.maxDepth →
+    1 ≤ env.maxDepth →
+    (Impl.evalArgs env root cur args).bind (Impl.unpack tys) =
+      .ok ((Spec.argsOf reg root cur tys args).map argObj) := by
+  intro env reg root cur tys args hc hwt hr hcur hrd hcd h1
+  obtain ⟨os, h1, h2, _, _⟩ := args_ok env reg root ⟨hc, ⟨hr, hrd⟩, h1⟩ args tys cur ⟨hcur, hcd⟩ hwt
+  rw [h1]
+  exact h2
 
 end JPV.Proofs
